@@ -318,6 +318,7 @@ func VerifHarness_Wrap() {
 		}
 		w := verifInner("wrap"+lt, content)
 		verifNotARule(w)
+		isSeq := ikey == nil
 		if ikey != nil {
 			// the subtree hangs under a key: this level is a mapping, and the next level decides what holds it
 			verifAssume(w.Kind == yaml.MappingNode)
@@ -331,6 +332,10 @@ func VerifHarness_Wrap() {
 			hasSeq = true
 		} else {
 			ikey = verifLeaf("wk"+lt, "", "groups", "rules")
+			if isSeq {
+				// the reserved combination again: a sequence directly under `groups` is a list of groups
+				verifAssume(ikey.Value != "groups")
+			}
 		}
 	}
 	// close the last level
